@@ -855,7 +855,7 @@ pub fn build_resolved(case: &Case) -> (Built, Resolved) {
         fee = want;
         rounds += 1;
         if rounds > 8 {
-            mc_core::report::machinery_failure(&format!("fee fixpoint does not converge for {}", case.label()));
+            crate::fail(&format!("fee fixpoint does not converge for {}", case.label()));
         }
     };
     let body_bytes = body.to_vec();
